@@ -1,9 +1,11 @@
 package p02
 
 import (
+	"math/big"
 	"sort"
 	"strings"
 
+	"github.com/btcsuite/btcd/blockchain"
 	"verifharness/core"
 )
 
@@ -192,7 +194,7 @@ func generate(g *core.Gen) {
 
 	// ---- fixed shapes delivered in order and in reverse (thin end-to-end slice)
 	{
-		v := func(id, par int) blk { return blk{id, par, 1, true, true, true, true} }
+		v := func(id, par int) blk { return blk{id, par, 1, true, true, true, true, 0} }
 		tree := []blk{v(1, 0), v(2, 1), v(3, 0), v(4, 3), v(5, 4)}
 		g.Case("fork-inorder", true, mkLine(tree, blockOps([]int{1, 2, 3, 4, 5})))
 		g.Case("fork-reverse", true, mkLine(tree, blockOps([]int{5, 4, 3, 2, 1})))
@@ -218,7 +220,7 @@ func generate(g *core.Gen) {
 	}
 
 	// ---- random trees, random orders
-	for i, n := 0, g.N(120, 1500); i < n; i++ {
+	for i, n := 0, g.N(100, 1500); i < n; i++ {
 		size := 4 + r.Intn(g.N(28, 60))
 		if r.Chance(1, 8) {
 			size = g.N(40, 100) + r.Intn(g.N(21, 300))
@@ -264,7 +266,7 @@ func generate(g *core.Gen) {
 			}
 			for k := 0; k < ln; k++ {
 				id++
-				x := blk{id, par, 1, true, true, true, true}
+				x := blk{id, par, 1, true, true, true, true, 0}
 				if k == bad {
 					x.connOk = false
 				}
@@ -296,15 +298,75 @@ func generate(g *core.Gen) {
 		g.Case("orphan-overflow", true, mkLine(tree, ops))
 	}
 
+	genVariedWork(g)
 	genInvRec(g)
 
 	// ---- malformed lines
 	for _, l := range []string{
 		"C02 run", "C02 run 1:0:1:1111", "C02 run 1:0:1:111 b1", "C02 run 1:0:1:1111 b2", "C02 run 1:0:1:1111 x1",
 		"C02 run 1:0:0:1111 b1", "C02 run 1:0:1:1111,1:0:1:1111 b1", "C02 run 0:0:1:1111 b0", "C02 run 1:2:1:1111 b1",
-		"C02 run 1:2:1:1111,2:1:1:1111 b1", "C02 run 1:0:1:1211 b1", "C02 walk - -", "C02 run 1:0:2:1111 b1", "C02 run 1:0:1:1111 b0",
+		"C02 run 1:2:1:1111,2:1:1:1111 b1", "C02 run 1:0:1:1211 b1", "C02 walk - -", "C02 run 1:0:1:1111:x b1", "C02 run 1:0:1:1111:f,2:1:1:1111 b1", "C02 run 1:0:1:1111 b0",
 	} {
 		g.Case("malformed", false, l)
+	}
+}
+
+// pacedTree turns a tree into a paced one: every block gets a pace (its
+// timestamp distance to the parent) and the work that btcd's retarget rule
+// then requires, computed with the real rule through the block factory. The
+// difficulty is kept within 4 retarget steps of the minimum so that solving a
+// block stays cheap.
+func pacedTree(r *core.Rand, tree []blk) []blk {
+	f := newFactory(pacedParams())
+	tm := map[int]blk{}
+	for _, b := range tree {
+		tm[b.id] = b
+	}
+	idx := map[int]int{}
+	for i, b := range tree {
+		idx[b.id] = i
+	}
+	out := append([]blk(nil), tree...)
+	for _, id := range topo(tree) {
+		b := out[idx[id]]
+		level := int64(1)
+		if b.parent != 0 {
+			level = int64(out[idx[b.parent]].work)
+		}
+		switch {
+		case level >= 256:
+			b.pace = "nns"[r.Intn(3)]
+		default:
+			b.pace = "ffnns"[r.Intn(5)]
+		}
+		b.work = 1
+		tm[b.id] = b
+		x := f.build(b, tm, 0)
+		if x.ok {
+			b.work = int(new(big.Int).Rsh(blockchain.CalcWork(x.bits), 1).Int64())
+		}
+		out[idx[id]] = b
+		tm[b.id] = b
+	}
+	return out
+}
+
+// genVariedWork: chains whose blocks carry different work (2, 8, 32, … per
+// block), so that "most cumulative work" and "longest" disagree.
+func genVariedWork(g *core.Gen) {
+	r := g.R
+	for i, n := 0, g.N(50, 600); i < n; i++ {
+		size := 5 + r.Intn(g.N(22, 60))
+		tree := pacedTree(r, randTree(r, size, int(r.Pick(1, 1, 0)), int(r.Pick(0, 0, 80, 200))))
+		ops := randomOrder(r, tree, int(r.Pick(0, 100)), int(r.Pick(0, 0, 200)), int(r.Pick(40, 80, 95, 100)))
+		g.Case("varied-work", nontrivial(tree, ops), mkLine(tree, ops))
+	}
+	// every delivery order of a few small paced trees (two branches of 2-3 blocks)
+	for t, n := 0, g.N(1, 6); t < n; t++ {
+		tree := pacedTree(r, randTree(r, 5, 1, 100))
+		permutations(idsOf(tree), func(p []int) {
+			g.Case("exhaustive-perm-varied-work", nontrivial(tree, blockOps(p)), mkLine(tree, blockOps(p)))
+		})
 	}
 }
 
@@ -328,7 +390,7 @@ func genInvRec(g *core.Gen) {
 		tree []blk
 		ops  []op
 	}
-	for i, n := 0, g.N(170, 2500); i < n; i++ {
+	for i, n := 0, g.N(140, 2500); i < n; i++ {
 		size := 3 + r.Intn(g.N(14, 40))
 		tree := relabel(r, randTree(r, size, int(r.Pick(0, 1, 1, 2)), int(r.Pick(0, 0, 100))))
 		ops := randomOrder(r, tree, 0, int(r.Pick(0, 0, 0, 100)), int(r.Pick(90, 100, 100)))
